@@ -86,8 +86,14 @@ def _cp(isa, n, ebits, lat, wo, ld):
         flags = [INSTR_FLAGS.HAS_LD] if ld[i] else []
         kernel.append(iform(i + 1, src=src, dst=[reg(isa, names[i])], lat=lat[i], wo=wo[i], flags=flags))
     g = DG(kernel, parser)
+    cp1 = g.get_critical_path()
+    total1 = sum([x.latency_cp for x in cp1])
+    # the report generators query the critical path several times (text report, dict output,
+    # graph export): repeated queries must give the same answer
     cp = g.get_critical_path()
     total = sum([x.latency_cp for x in cp])
+    if total != total1 or [x.line_number for x in cp] != [x.line_number for x in cp1]:
+        return verdict(False, nontrivial=True, sample=lambda: {"repeated_query": [total1, total]})
     t_clean, t_gen, edges = _ref(n, e, lat, wo, ld)
     ok_total = (total == t_clean) or (total == t_gen)
     chain = [x.line_number - 1 for x in cp]
@@ -135,6 +141,54 @@ def cp3_x86_ld1(e01: bool, e02: bool, e12: bool, l0: int, l1: int, l2: int, w: i
     return _cp("x86", 3, [e01, e02, e12], lat, wo, ld)
 
 
+def cp3_writeback(l0: int, l1: int, l2: int, pil: int, e01: bool, e02: bool, e12: bool, wb1: bool, wb2: bool) -> bool:
+    """
+    pre: 0 <= l0 <= 40 and 0 <= l1 <= 40 and 0 <= l2 <= 40 and 0 <= pil <= 10
+    post: _
+    """
+    # instruction 0 is a post-indexed AArch64 load found directly in the model (no separate load
+    # node): it writes its data register AND its base register; edges through the written-back
+    # base carry the model's p_index_latency (symbolic), independent of the producer's latency
+    if not _in_shard([e01, e02, e12, wb1, wb2]):
+        return True
+    if skip(locals()):
+        return True
+    from osaca.parser.memory import MemoryOperand
+    from osaca.parser.immediate import ImmediateOperand
+    from vp.synth import mk_model, class_reg
+    isa = "aarch64"
+    model = mk_model(isa, ports=["0"], p_index_latency=pil)
+    mem = MemoryOperand(base=class_reg(isa, 5), offset=None, post_indexed={"value": 16})
+    wb = class_reg(isa, 5)
+    wb.post_indexed = mem.post_indexed
+    i0 = iform(1, src=[mem], dst=[class_reg(isa, 0)], src_dst=[wb], lat=l0, flags=[INSTR_FLAGS.HAS_LD, INSTR_FLAGS.LD])
+    # consumers read the data register (e0x) or the written-back base (wbx)
+    src1 = ([class_reg(isa, 0)] if e01 else []) + ([class_reg(isa, 5)] if wb1 else [])
+    src2 = ([class_reg(isa, 0)] if e02 else []) + ([class_reg(isa, 5)] if wb2 else []) + ([class_reg(isa, 1)] if e12 else [])
+    if (e01 and wb1) or (e02 and wb2):
+        return True   # data and write-back edge to the same consumer: weight not determined
+    i1 = iform(2, src=src1, dst=[class_reg(isa, 1)], lat=l1)
+    i2 = iform(3, src=src2, dst=[class_reg(isa, 2)], lat=l2)
+    g = DG([i0, i1, i2], NativeParser(PA), model=model)
+    cp = g.get_critical_path()
+    total = sum([x.latency_cp for x in cp])
+    edges = {}
+    if e01:
+        edges[(0, 1)] = l0
+    if wb1:
+        edges[(0, 1)] = pil
+    if e02:
+        edges[(0, 2)] = l0
+    if wb2:
+        edges[(0, 2)] = pil
+    if e12:
+        edges[(1, 2)] = l1
+    want = ref_longest(3, edges, [l0, l1, l2])
+    chain = [x.line_number - 1 for x in cp]
+    ok = total == want and all((a, b) in edges for a, b in zip(chain, chain[1:]))
+    return verdict(ok, nontrivial=len(edges) > 0, sample=lambda: {"lat": [l0, l1, l2], "p_index_latency": pil, "edges": {str(k): v for k, v in edges.items()}, "total": total})
+
+
 def cp3_a64(e01: bool, e02: bool, e12: bool, l0: int, l1: int, l2: int, w0: int, w1: int, w2: int,
             d0: bool, d1: bool, d2: bool) -> bool:
     """
@@ -179,6 +233,8 @@ def cp4_x86(e01: bool, e02: bool, e03: bool, e12: bool, e13: bool, e23: bool,
 CELLS = {
     "cp3_x86_ld1": {"fn": cp3_x86_ld1, "tiers": ("quick",), "bound": "n=3, all 8 dependency structures, lat ints in [0,40]; at most one instruction (symbolic position) has a load stage with symbolic wo <= lat",
                     "budget": {"quick": 170}, "shards": 16},
+    "cp3_writeback": {"fn": cp3_writeback, "bound": "n=3, instruction 0 = post-indexed load (data + base write-back); consumers read data or written-back base (edge weight = symbolic p_index_latency 0..10, independent of the producer latency); int latencies 0..40",
+                      "budget": {"quick": 170, "thorough": 600}, "shards": 8},
     "cp3_x86": {"fn": cp3_x86, "tiers": ("thorough",), "bound": "n=3, all 8 dependency structures, lat/wo ints in [0,40], load stage per instruction symbolic",
                 "budget": {"thorough": 900}, "shards": 32},
     "cp3_a64": {"fn": cp3_a64, "tiers": ("thorough",), "bound": "as cp3_x86 with the AArch64 alias predicate", "budget": {"thorough": 900}, "shards": 16},
